@@ -275,10 +275,21 @@ def shard_full_width(desc, rec):
         finally:
             rc.ALLOW_FULL_WIDTH = False
         rec.count("oracle:C06.full-width-field-decoded-whole")
+        # just before: a block whose 256-byte label fields carry non-zero bytes after their terminators is decoded -
+        # what an unterminated field reads may not depend on the don't-care bytes of a field read earlier (C12)
+        try:
+            pre = C.small_block_spec(rng, rng.choice(["data3D", "emg", "events"]), 1)
+            xp = rc.encode_block(pre)
+            _, spans_p, _ = rc.decode_block(pre["t"], pre["format"], xp)
+            lib.dec(pre["t"], pre["format"], rc.scramble(xp, spans_p, rng, rng.choice(["text", "random", "ff"])))
+            rec.count("oracle:C12.unterminated-field-after-scrambled-read")
+        except Exception:
+            pass
         try:
             blk, used = lib.dec(kind, spec["format"], x, b"", b"\x00\x00")
         except Exception as e:
             rec.violation("C06", f"{kind}:full-width-field:decode-raises", f"{type(e).__name__}: {e}", case, exc=e)
+            rec.violation("C12", "unterminated-field-read-depends-on-earlier-dontcare-bytes", f"{kind}.{fld}: {type(e).__name__}: {e}", case, exc=e)
             continue
         items = {"data3D": lambda: blk.tracks, "force3D": lambda: blk.tracks, "platCal": lambda: [p for _, p in blk.platforms],
                  "optical": lambda: blk.channels, "events": lambda: blk.events}[kind]()
@@ -287,6 +298,9 @@ def shard_full_width(desc, rec):
             rec.violation("C06", f"{kind}:full-width-field:decoded-value-differs",
                           f"{fld} of {width} characters decodes to {len(got)} characters (consumed {used} of {len(x)})", case)
             rec.violation("C13", "read:full-width-string-through-block", f"{kind}.{fld}", case)
+            rec.violation("C12", "unterminated-field-read-depends-on-earlier-dontcare-bytes",
+                          f"{kind}.{fld} of {width} characters decodes to {len(got)} characters after a block with non-zero "
+                          f"after-terminator bytes was read", case)
         # the items after it are still aligned
         for k_, it in enumerate(spec[key]):
             if k_ != j and lib.view_item(kind, items[k_]).get("label", None) != it.get("label", None):
